@@ -31,9 +31,20 @@ func c06Profiles(quick bool) []*bworld.Profile {
 		{Kind: "in", Key: "k", Max: 1}, {Kind: "out", Key: "k", Max: 1},
 	}
 	two.MaxAttempts = 3
+	/* A slow log inside the admission section: while one half sits at its
+	"New connection" record (holding the broker's lock), the other halves
+	are let go; they must wait, and be judged afterwards. */
+	slowlog := base
+	slowlog.Name = "c06-2io-slow-log-in-admission"
+	slowlog.Starts = []bworld.StartSpec{{Kind: "io", WKind: 3, Max: 2}, {Kind: "in", Key: "k", Max: 1}}
+	slowlog.MaxAttempts = 2
+	slowlog.LogGate = true
+	slowlog.Cancel = false
+	slowlog.MaxLines, slowlog.MaxOuts = 0, 0
 	if quick {
-		return []*bworld.Profile{&two}
+		return []*bworld.Profile{&two, &slowlog}
 	}
+	slowlog.MaxAttempts = 3
 	three := base
 	three.Name = "c06-3io+uni"
 	three.Starts = []bworld.StartSpec{
@@ -47,7 +58,7 @@ func c06Profiles(quick bool) []*bworld.Profile {
 	four.MaxAttempts = 4
 	four.Cancel = false
 	four.Shutdown = true
-	return []*bworld.Profile{&two, &three, &four}
+	return []*bworld.Profile{&two, &three, &four, &slowlog}
 }
 
 func c06(r *ev.Result, tier string) {
